@@ -77,7 +77,8 @@ PROPS["C03"] = {
 
 PROPS["C04"] = {
     "legs": [rapid("hist", "pstree", "TestC04Hist", 4, 4000, 16, 800000),
-             rapid("float", "pstree", "TestC04Float", 2, 2000, 8, 300000)],
+             rapid("float", "pstree", "TestC04Float", 2, 2000, 8, 300000),
+             rapid("str", "pstree", "TestC04Str", 2, 3000, 8, 300000)],
     "rule": "histories of <=50(+9) ops on two copies of one omap.Map value (ops alternate between the copies): "
             "Set/Delete/Clear/Get/GetOK on present, absent-below, absent-above and absent-inside keys; iterator "
             "programmes First/Last/Seek(k)/Iter.Seek(k) followed by Next/Prev walks, the documented "
@@ -313,7 +314,8 @@ PROPS["C18"] = {
 PROPS["C19"] = {
     "legs": [rapid("det", "pdistinct", "TestC19Det", 4, 20000, 16, 1200000),
              plain("stat", "pdistinct", "TestC19Stat", solo=True, shards={"quick": 1, "thorough": 4}),
-             plain("reuse", "pdistinct", "TestC19Reuse")],
+             plain("reuse", "pdistinct", "TestC19Reuse"),
+             plain("huge", "pdistinct", "TestC19Huge")],
     "rule": "leg reuse: one counter is run 24 times on the same stream (D distinct values, D > 20*size and not of the form Len*2^k) with Reset between the runs; if all 24 runs return the same Count the mean over repeated runs is stuck away from D (runs through Reset are not independent) - for independent runs and sizes >= 16 the probability of that is below 1e-15; non-trivial = the runs gave at least two different counts. The counter seeds itself from crypto/rand, so no run is bit-reproducible; the deterministic clauses hold "
             "with probability 1 and are checked on every run, the unbiasedness clause is statistical.  leg det: a case "
             "is (size, reps, ops) with ops[i] >= 0 = Add(value) and -1 = Reset; size from {2,3,4,8,16,64} (75%) or "
@@ -489,7 +491,8 @@ PROPS["C16"] = {
 PROPS["C11"] = {
     "legs": [plain("exh", "pslice", "TestC11Exhaustive", solo=True),
              plain("alias", "pslice", "TestC11Alias", solo=True),
-             rapid("rand", "pslice", "TestC11Rand", 4, 10000, 16, 120000)],
+             rapid("rand", "pslice", "TestC11Rand", 4, 10000, 16, 120000),
+             rapid("big", "pslice", "TestC11Big", 4, 3, 16, 40)],
     "rule": "leg alias: lhs and rhs are two windows buf[i:j], buf[k:l] of ONE backing array (a slice diffed against its own prefix, suffix or appended version): every buffer over {0,1,2} of length <=6 (quick) / <=8 (thorough) x every ordered pair of windows of which one reaches the end; one rand case in six is built the same way. A case is one input pair {lhs, rhs} of slice.EditScript (integer elements). leg exh enumerates, in order of "
             "total length and spread over all cores, EVERY pair over {0,1,2} with both lengths <= 6 and every pair over "
             "{0,1} with both lengths <= 9 (quick; 2.2 M pairs) / {0,1,2} <= 8, {0,1} <= 11 and every pair over {0,1,2,3} "
